@@ -266,7 +266,7 @@ def check_bytes_lt(ctx, P):
     r = ev.run()
     # borrow variable: the loop-carried u8
     head = loops[0]["call"].bb if loops else None
-    bl = [l for l, t in enumerate(fn.locals) if t == "u8" and len(fn.defs().get(l, [])) >= 2]
+    bl = [l for l, t in enumerate(fn.locals) if t in ("u8", "u16", "u32", "u64", "usize") and len(fn.defs().get(l, [])) >= 2]
     bvar = None
     for l in bl:
         defs = rules.var_defs(fn, l)
@@ -316,7 +316,9 @@ def check_bytes_lt(ctx, P):
     diff = None
     for x in subterms(nb_term):
         if x[0] == "bin" and x[1] == "Sub" and x[4] in ("i16", "i32", "i64"):
-            if diff is None or len(repr(x)) > len(repr(diff)):
+            lf = linform(x, head, bvar)
+            # the wide difference is the largest subtraction that is linear in (x, borrow, y) -- not e.g. `0 - (d >> 8)`
+            if lf and lf.get("borrow") == -1 and (diff is None or len(repr(x)) > len(repr(diff))):
                 diff = x
     oks = False
     shape = None
